@@ -87,7 +87,7 @@ func TestVerifC14Sync(t *testing.T) {
 	r := vr.Start("C14", "sync", 100*time.Second, 18*time.Minute)
 	defer r.Finish()
 	r.Rule = "stateless depth-first enumeration of choice vectors: one choice per app verdict (offer: 5 results; chunk: result x refetch set x reject-sender set, " +
-		"17-option lean or 80-option full alphabet; info: true / wrong hash / wrong height / wrong version) and per network event at every stable point of the syncer goroutine " +
+		"17-option lean or 80-option full alphabet; info: true / wrong hash / height-1 / wrong version / height+1) and per network event at every stable point of the syncer goroutine " +
 		"(in an app callback, or parked in chunkQueue.Next): good chunk of any index from any menu peer, wrong index/format/height, nil body, (re-)advertisement, peer removal; " +
 		"bounded per sweep by (history length L, <=Kv non-default verdicts, <=Ka non-default network events); every vector is one full execution of the real SyncAny; " +
 		"distinct_nontrivial = distinct journals (behaviour signatures) with at least one non-default choice"
